@@ -21,7 +21,10 @@ func (ts *CancelableTransport) RoundTrip(r *http.Request) (*http.Response, error
 			cancel()
 		}
 	}()
-	r2 := r.Clone(ctx)
+	// a shallow copy: Clone would copy the Trailer map while it only holds the
+	// announced keys (the values arrive with the end of the body) and the
+	// request would go out with empty trailer fields
+	r2 := r.WithContext(ctx)
 	return ts.inner.RoundTrip(r2)
 }
 func (ts *CancelableTransport) Close() {
